@@ -169,7 +169,7 @@ def replay(ctx):
     ind = os.path.join(ctx.work, "in-c11")
     os.makedirs(ind)
     json.dump([h], open(os.path.join(ind, "behaviours.json"), "w"))
-    res = ctx.go_driver("c11ref", "TestDriver", env={"VERIF_IN": ind, "VERIF_RANDOM": 0, "VERIF_TRIE": 0, "VERIF_CHAINS": 0}, timeout=600)
+    res = ctx.go_driver("c11ref", "TestDriver", env={"VERIF_IN": ind, "VERIF_RANDOM": 0, "VERIF_TRIE": 0, "VERIF_CHAINS": 0, "VERIF_ARCHIVAL": 0}, timeout=600)
     ctx.absorb(res)
     trace = os.path.join(res["_out"], "trace.ndjson")
     events = vlib.read_ndjson(trace)
@@ -235,7 +235,7 @@ def run(ctx):
     os.makedirs(ind)
     json.dump(behaviours, open(os.path.join(ind, "behaviours.json"), "w"))
     # 3. real code
-    res = ctx.go_driver("c11ref", "TestDriver", env={"VERIF_IN": ind, "VERIF_RANDOM": 600 if q else 6000,
+    res = ctx.go_driver("c11ref", "TestDriver", env={"VERIF_IN": ind, "VERIF_RANDOM": 600 if q else 6000, "VERIF_ARCHIVAL": 0,
                                                      "VERIF_CHAINS": 6 if q else 36}, timeout=3000)
     ctx.absorb(res)
     # 4. TLC judges the dumped tables against the abstract specification
